@@ -21,5 +21,22 @@ for m in sorted(glob.glob(os.path.join(V, "seeded", "*", "meta.json"))):
         continue
     props = meta.get("detected_by_properties") or [meta["property"]]
     out.append({"id": "seeded-" + os.path.basename(d), "patch": os.path.relpath(os.path.join(d, "patch.diff"), V), "properties": sorted(set(props)), "what": meta.get("summary", "")[:240]})
+# hand-written catalogue (DESIGN §10), crafted as compiling patches by a sub-agent from the descriptions
+GAPS = {"C12-03": "lock re-acquisition reached only through an interface call with several possible targets; lock-order edges follow precise callees only (DESIGN §11.2, §15)"}
+REMAP = {"C10-05": "C11"}
+import csv
+idx = os.path.join(V, "mutants", "catalogue", "index.tsv")
+if os.path.exists(idx):
+    for row in csv.reader(open(idx), delimiter="\t"):
+        if len(row) < 3: continue
+        mid = row[0]
+        pf = os.path.join("mutants", "catalogue", mid + ".diff")
+        if not os.path.exists(os.path.join(V, pf)): continue
+        m = {"id": "catalogue-" + mid, "patch": pf, "properties": [REMAP.get(mid, mid.split("-")[0])], "what": row[2][:240]}
+        if mid in GAPS: m["known_gap"] = GAPS[mid]
+        out.append(m)
+for f in sorted(glob.glob(os.path.join(V, "mutants", "benign", "*.diff"))):
+    out.append({"id": "benign-" + os.path.basename(f)[:-5], "patch": os.path.relpath(f, V), "properties": [os.path.basename(f)[:3].upper()], "expect": "silent",
+                "what": "behaviour-preserving refactor: the check must stay silent"})
 json.dump(out, open(os.path.join(V, "mutants", "index.json"), "w"), indent=1)
 print(len(out), "mutants")
